@@ -21,6 +21,7 @@ desc={
 "C15-a":("TopK drops rows tying with the boundary on the leading key","multi-key ORDER BY + LIMIT with ties"),
 "C17-a":("FULL OUTER hash join drops left rows with NULL keys","FULL join + NULL left key"),
 "C14-a":("BETWEEN combines its two comparisons with `Option::zip` (FALSE AND NULL becomes NULL)","NULL bound + value outside the other bound + NOT / NOT BETWEEN"),
+"C14-b":("BETWEEN combines its two comparisons with `(Some(ge), Some(le)) => Some(ge && le), _ => None` (same effect as C14-a, written independently)","NULL bound + value outside the other bound + NOT / NOT BETWEEN / select list"),
 "C32-a":("`JsonbView::get` compares keys bytewise with the length tie-break reversed","object keys in a proper-prefix relation (`id` / `id_type`)"),
 }
 why={
